@@ -37,6 +37,18 @@ static int check(float a, float b, float c, float d)
       if (finz(a, b) && finz(c, d) && !zeroz(c, d) && nannan(x, y)) return bad("ieee /: finite operands give NaN+NaN i", a, b, c, d, x, y);
       // scaling: a divisor +-2^k + 0i of any normal magnitude divides each part exactly once
       int ex; if (d == 0 && std::isfinite(c) && c != 0 && std::frexp(std::fabs(c), &ex) == 0.5f && std::fabs(c) >= FLT_MIN && finz(a, b)) { float qx = va / vc, qy = vb / vc; if (!feq(x, qx) || !feq(y, qy)) return bad("ieee /: divisor +-2^k of extreme magnitude: quotient not (a/c, b/c)", a, b, c, d, x, y); } }
+    { bool e = CF(a, b) != CF(c, d); if (e != !(a == c && b == d)) return bad("!= is not the negation of ==", a, b, c, d, e, 0); }
+    { CF r = a + CF(c, d); if (!feq(r.real(), va + vc) || !feq(r.imag(), vd)) return bad("real + complex differs (dividend/left operand is the real a)", a, 0, c, d, r.real(), r.imag()); }
+    { CF r = a - CF(c, d); if (!feq(r.real(), va - vc) || !feq(r.imag(), 0.0f - vd)) return bad("real - complex differs (left operand is the real a)", a, 0, c, d, r.real(), r.imag()); }
+    { float e = vc * vc + vd * vd, z = 0.0f; volatile float vz = z; CF r = a / CF(c, d); float x = (va * vc + vz * vd) / e, y = (vz * vc - va * vd) / e;
+      if (!feq(r.real(), x) || !feq(r.imag(), y)) return bad("naive real / complex differs from the quotient formula with dividend (a, 0)", a, 0, c, d, r.real(), r.imag()); }
+    { CT r = a / CT(c, d); float x = r.real(), y = r.imag();
+      if (std::isinf(a) && finz(c, d) && !infz(x, y)) return bad("ieee real / complex: infinity / finite is not an infinity", a, 0, c, d, x, y);
+      if (std::isfinite(a) && infz(c, d) && !zeroz(x, y)) return bad("ieee real / complex: finite / infinity is not a zero", a, 0, c, d, x, y);
+      if ((std::isinf(a) || (std::isfinite(a) && a != 0)) && zeroz(c, d) && !infz(x, y)) return bad("ieee real / complex: non-zero / zero is not an infinity", a, 0, c, d, x, y);
+      if (std::isfinite(a) && finz(c, d) && !zeroz(c, d) && nannan(x, y)) return bad("ieee real / complex: finite operands give NaN+NaN i", a, 0, c, d, x, y);
+      int ex; if (d == 0 && std::isfinite(c) && c != 0 && std::frexp(std::fabs(c), &ex) == 0.5f && std::fabs(c) >= FLT_MIN && std::isfinite(a)) { float qx = va / vc; if (!feq(x, qx)) return bad("ieee real / complex: divisor +-2^k is not divided out exactly", a, 0, c, d, x, y); } }
+    { CT r = CT(a, b) / c; float x = va / vc, y = vb / vc; if (!feq(r.real(), x) || !feq(r.imag(), y)) return bad("complex / real does not divide both parts (divisor is the real c)", a, b, c, 0, r.real(), r.imag()); }
     return 0;
 }
 int main()
